@@ -156,6 +156,22 @@ CLAIMED["C18"] = dict(
     technique="Coq proof (print/parse and repr/unescape round trips) + vm_compute correspondence on printed paths",
     design="4/C18")
 
+CLAIMED["C09"] = dict(
+    text=("The bytes codec of the serializer (latin-1 with the raw_unicode_escape fallback for old documents; the "
+          "old decoder is modelled too) and the policy gate on symbol resolution are modelled and proved: "
+          "bytes_of_str (latin1_decode b) = b for all byte strings, the old codec's lossiness is exhibited, "
+          "import_symbol imports only symbols the policy approved and returns only approved values. At the graph "
+          "level (de)serialization is the memoized copy of C07 (proved faithful and disjoint); in Coq the input "
+          "graph, the graph an independent reader finds in the JSON document and the reconstruction are checked "
+          "isomorphic to the model's copy. The oracle checks strict-JSON validity, types/leaves/callables/tags/"
+          "sharing/unset-ness after the round trip, identical re-dump up to set order, that no configured "
+          "callable runs and every import was approved by a recording policy, also on mutated documents; the "
+          "bytes codec is swept exhaustively over short strings."),
+    note=COMMON_NOTE + " json, importlib trusted. Known finding: inf/nan leaves are written as Infinity/NaN "
+         "(not strict JSON). Object naming, the 'paths' debugging field and metadata encoding are not modelled.",
+    technique="Coq proof (codec bijection, policy gate, copy faithfulness) + vm_compute correspondence on documents",
+    design="4/C09")
+
 PENDING_REASON = "check not built yet in this session (work in progress; see DESIGN.md section 4)"
 
 
